@@ -133,6 +133,17 @@ def check_state(acc, pendulum, z, inst):
         if type(v) is not t:
             acc.mismatch("result-type", k, case, type(v).__name__, t.__name__)
     check_constructors(acc, pendulum, z, inst, x, b, case)
+    f7 = obs.fields(x)
+    iso = x.isoformat()
+    mix = {"for_json": (x.for_json(), iso), "format-empty": (format(x, ""), str(x)), "str": (str(x), b.isoformat(" ")),
+           "format-tokens": (format(x, "YYYY-MM-DD HH:mm:ss.SSSSSS"), "%04d-%02d-%02d %02d:%02d:%02d.%06d" % f7),
+           "fstring-percent": (f"{x:%H:%M}", f"{b:%H:%M}")}
+    for k, (g, w) in mix.items():
+        acc.c["evaluations"] += 1
+        if k == "format-tokens" and f7[0] < 1000:
+            continue
+        if g != w:
+            acc.mismatch("mixin", f"DateTime.{k}", dict(case, acc=k), g, w)
 
 
 def _ctor_val(fn, pendulum, want_type):
@@ -253,6 +264,24 @@ def check_date(acc, pendulum, n1, n2):
                      "today": pendulum.Date.today()}.items():
             if type(v) is not pendulum.Date:
                 acc.mismatch("result-type", f"Date.{k}", case, type(v).__name__, "Date")
+        ts = (dt_.date(*f1).toordinal() - 719163) * 86400 + 3600
+        for k, fn in (("fromordinal", lambda C: C.fromordinal(b.toordinal())), ("fromtimestamp", lambda C: C.fromtimestamp(ts)),
+                      ("replace", lambda C: (x if C is pendulum.Date else b).replace(month=2, day=28)),
+                      ("fromisoformat", lambda C: C.fromisoformat(b.isoformat()))):
+            got, want = _try(lambda: fn(pendulum.Date)), _try(lambda: fn(dt_.date))
+            acc.c["evaluations"] += 1
+            acc.c["transitions"] += 1
+            if got != want:
+                acc.mismatch("date-constructor", k, case, got, want)
+        # the formatting mixin: for_json() is the ISO form, an empty format spec is str(), a non-% spec is format()
+        mix = {"for_json": (x.for_json(), x.isoformat()), "format-empty": (format(x, ""), str(x)),
+               "format-tokens": (format(x, "YYYY-MM-DD"), "%04d-%02d-%02d" % tuple(f1)), "str": (str(x), b.isoformat())}
+        for k, (g, w) in mix.items():
+            acc.c["evaluations"] += 1
+            if k == "format-tokens" and f1[0] < 1000:
+                continue        # token rendering is C08's subject and that is stated for years 1000-9999
+            if g != w:
+                acc.mismatch("mixin", f"Date.{k}", case, g, w)
     for name, fn in OPS:
         got, nat = _try(lambda: fn(x, y)), _try(lambda: fn(b, yb))
         acc.c["evaluations"] += 1
